@@ -100,9 +100,12 @@ AbsAtMostOnce == \A j \in JobIds : Count2(ToString(j)) <= 1
 \* after Wait returned nothing runs
 AbsWaitMeansDone == \A a, b \in 1..Len(seen) : (a < b /\ seen[a].k = "wait_returned") => seen[b].k # "call"
 \* Stop (not HardStop) runs everything: a Drop is only for jobs submitted after the stop request began
+\* (chain scenarios: a follow-up exists only when its predecessor was Called)
+ChainScen == Len(seen) > 0 /\ seen[1].k = "scenario" /\ seen[1].v \in {"softonly:1", "stop:1", "soft:1", "hard:1"}
+CalledJ(j) == \E n \in 1..Len(seen) : seen[n].k = "call" /\ seen[n].v = ToString(j)
 AbsEndOK(t) ==
   /\ t.status = "ok"
-  /\ \A j \in AllJobs : Count2(ToString(j)) = 1
+  /\ \A j \in AllJobs : Count2(ToString(j)) = (IF ChainScen /\ j % 10 # 1 /\ ~CalledJ(j - 1) THEN 0 ELSE 1)
 AbsEnd == (l > 1 /\ l - 1 <= Len(T) /\ T[l - 1].e = "end") => AbsEndOK(T[l - 1])
 \* SoftStop stops only when no job is queued or running: while a job runs the pool accepts its follow-up, so under
 \* "SoftStop and nothing else" a job that was Called never has its follow-up Dropped
